@@ -377,6 +377,20 @@ def raw_attr_value(rng, name):
 def raw_node(rng, depth):
     """-> nested tuple tree: ('elem', qname, attrs, kids) | ('leaf', event)"""
     r = rng.random()
+    if r < 0.06 and depth < 4:
+        # an element that is unsafe only through an attribute (input type=password), with safe
+        # elements of the same name nested in it and content after them: the dropping state must
+        # count same-name STARTs whether or not they are safe by themselves (seeded change C06-2)
+        pw = rng.choice(['password', 'PASSWORD', 'Password'])
+        kids = []
+        for _ in range(rng.choice([1, 1, 2])):
+            kids.append(('elem', ('', 'input'), [(('', 'type'), rng.choice(['text', 'checkbox']))] if rng.random() < 0.6 else [],
+                         [raw_node(rng, depth + 2)] if rng.random() < 0.3 else []))
+            if rng.random() < 0.8:
+                kids.append(('leaf', ('T', text_payload(rng), False)))
+        if rng.random() < 0.5:
+            kids.append(raw_node(rng, depth + 2))
+        return ('elem', ('', 'input'), [(('', 'type'), pw)], kids)
     if r < 0.55 and depth < 5:
         tag = raw_qname(rng, SAFE_TAGS_V, UNSAFE_TAGS_V)
         attrs = []
